@@ -20,7 +20,7 @@
 #include "prelude.h"
 #include <stdlib.h>
 
-#define KMP_TABLE_MAXPAT 6    /* str.kmp.init.table: pattern lengths 0..6 (the switch in h_kmp_init_table) */
+#define KMP_TABLE_MAXPAT 8    /* str.kmp.init.table: pattern lengths 0..8 (the switch in h_kmp_init_table) */
 #define KMP_MAXPAT 4          /* str.kmp.search.exact: pattern lengths 1..4, text lengths 0..8 (the switch in h_kmp_search) */
 #define KMP_MAXTEXT 8
 #define STR_NULL ((void *)0)
@@ -93,6 +93,8 @@ void h_kmp_init_table(void) {
     case 4: check_init_table(4); break;
     case 5: check_init_table(5); break;
     case 6: check_init_table(6); break;
+    case 7: check_init_table(7); break;
+    case 8: check_init_table(8); break;
     default: break;
   }
 }
